@@ -1122,7 +1122,22 @@ func runCase(id string, toks []string, bound time.Duration) (obs []string, flags
 	r.asB(func() { go r.ticker(r.B) })
 
 	for _, s := range steps[1:] {
-		r.step(s)
+		// a step may call the subject's API directly (signalling, polling): if the agent is wedged
+		// the step is abandoned and the script ends here
+		sd := make(chan struct{})
+		st := s
+		go func() {
+			defer close(sd)
+			r.step(st)
+		}()
+		select {
+		case <-sd:
+			continue
+		case <-time.After(3*r.bound + 5*time.Second):
+			r.ev.add("ABANDONED")
+		}
+
+		break
 	}
 	// every case closes
 	if !r.anyCloserStarted() {
